@@ -63,6 +63,8 @@ void __verif_unprotect(const void* p, unsigned long n) {
 }
 void __verif_note(const char*) {}
 void __verif_havoc_int_range(long long, long long) {}
+void __verif_env_input_f(double) {}
+void __verif_env_input(long long) {}
 void harness();
 }
 int main(int argc, char** argv) {
